@@ -49,6 +49,17 @@ def cli_cases():
     allowed = {"H", "H2", "C", "CH"}
     cases.append(("reduce-by-species", ["--reduce-by-species", "H,H2, C ,CH"], [key(i) for i in base if spec(i) <= allowed]))
     cases.append(("reduce+dedup", ["--reduce-by-species", "H,H2", "--remove-duplicate"], [key(0), key(1)]))
+    # appended grain processes: the same edits applied one after another through the API give base + freeze-out of
+    # every neutral gas species + desorption of every surface species *then* present (appended in set order)
+    kept = [key(i) for i in base]
+    neutral = sorted(x for x in set().union(*[spec(i) for i in base]) if not x.endswith(("+", "-")))
+    freeze = [([x], ["#" + x], 200) for x in neutral]
+    des = lambda code: [(["#" + x], [x], code) for x in neutral]
+    cases.append(("append-depletion", ["--append-depletion"], (kept, freeze)))
+    cases.append(("append-thermal-desorption-no-ice", ["--append-thermal-desorption"], kept))
+    cases.append(("append-depletion+thermal", ["--append-depletion", "--append-thermal-desorption"], (kept, freeze + des(201))))
+    cases.append(("append-depletion+photon+cosmic-ray", ["--append-depletion", "--append-photon-desorption", "--append-cosmic-ray-desorption"], (kept, freeze + des(203) + des(202))))
+    cases.append(("dedup+depletion+all-desorption", ["--remove-duplicate", "--append-depletion", "--append-thermal-desorption", "--append-photon-desorption", "--append-cosmic-ray-desorption"], (dedup, freeze + des(201) + des(203) + des(202))))
     return cases
 
 
@@ -70,7 +81,15 @@ def run_cli(chk):
                 continue
             got = _read(os.path.join(pdir, "out.naunet"))
             chk.replays_done += 1
-            if got == expected:
+            if isinstance(expected, tuple):
+                # (ordered prefix, appended multiset)
+                pre, app = expected
+                same = got[: len(pre)] == pre and sorted(got[len(pre):]) == sorted(app)
+                expected = pre + sorted(app)
+                got = got[: len(pre)] + sorted(got[len(pre):])
+            else:
+                same = got == expected
+            if same:
                 chk.ok(nm)
                 chk.nontrivial.add(nm)
             else:
